@@ -113,6 +113,7 @@ struct State {
     policy: u8,
     timeouts_used: usize,
     timeouts_max: usize,
+    last_tid: Option<usize>,
 }
 
 static STATE: Mutex<Option<State>> = Mutex::new(None);
@@ -174,10 +175,12 @@ pub fn init_main() {
         locks: vec![],
         step_limit,
         timeouts_used: 0,
+        last_tid: None,
         timeouts_max: std::env::var("S4V_TIMEOUTS").ok().and_then(|s| s.parse().ok()).unwrap_or(2),
         policy: match std::env::var("S4V_POLICY").as_deref() {
             Ok("workers-first") => 1,
             Ok("workers-reverse") => 2,
+            Ok("sticky") => 3,
             _ => 0,
         },
     });
@@ -397,7 +400,12 @@ impl State {
                 // lowest-numbered worker first, coordinator only when no worker can move
                 1 => en.iter().position(|e| e.0 != 0 && e.0 != SIGTID).unwrap_or(0),
                 // highest-numbered worker first
-                _ => en.iter().rposition(|e| e.0 != 0 && e.0 != SIGTID).unwrap_or(0),
+                2 => en.iter().rposition(|e| e.0 != 0 && e.0 != SIGTID).unwrap_or(0),
+                // non-preemptive: the thread that ran last continues while it can (a deviation is then a preemption)
+                _ => self
+                    .last_tid
+                    .and_then(|t| en.iter().position(|e| e.0 == t))
+                    .unwrap_or(0),
             }
         };
         if chosen >= en.len() {
@@ -425,6 +433,7 @@ impl State {
                 .expect("spawn handler");
         } else {
             self.granted = Some((tid, alt));
+            self.last_tid = Some(tid);
         }
     }
 
@@ -579,6 +588,22 @@ static HOOKS_ON: std::sync::OnceLock<bool> = std::sync::OnceLock::new();
 /// so the schedule spaces of C01/C06 are those of the channel operations alone.
 pub fn hooks_on() -> bool {
     *HOOKS_ON.get_or_init(|| std::env::var_os("S4V_HOOKS").is_some())
+}
+
+static ONCE_ON: std::sync::OnceLock<bool> = std::sync::OnceLock::new();
+
+/// Called by the instrumented once_cell before an access to a cell that is not yet initialised.
+/// A scheduling point only when S4V_ONCE is set and the thread is a logical thread of the run.
+pub fn oncecell_point() {
+    if !controlled() {
+        return;
+    }
+    if !*ONCE_ON.get_or_init(|| std::env::var_os("S4V_ONCE").is_some()) {
+        return;
+    }
+    if my_tid().is_some() {
+        park(Op::Point("once"));
+    }
 }
 
 pub fn hook_point(name: &'static str) {
